@@ -26,6 +26,12 @@ Ops (ctx = number of the task that runs the op; task 0 exists from the start):
   ["cstart", ctx, fid, call, arg]         task ctx does asyncio.create_task(f(arg)) - call number `call` - and lets it run
                                           until it parks (in its body, behind another call, on a lock) or ends
   ["cfin", ctx, call]                     the body that call `call` itself is executing (if any) is allowed to return
+  ["comp", ctx, name, [key..], [tag..]]   one COMPOSITE command of the facade (see COMPOSITES): a public method that issues further
+                                          backend commands behind the caller's back - set/incr with tags=, delete_tags, get_or_set,
+                                          `async with cache.lock(...)`, a function decorated with @cache.invalidate; "one:<cmd>" = a
+                                          plain public command (so that what the facade's on-remove callback does during it is judged too)
+Optional scenario fields: "tagreg": [[tag, key_template], ...] = cache.register_tag(tag, key_template) before task 0 starts;
+"tagsets": {tag: [member, ...]} = the tag set `_tag:<tag>` is loaded directly into every backend.
 At the end of a scenario every body still parked is released, oldest execution first, function by function.
 Executions are numbered per function in the order they start; a body returns "body<n>:<arg>", so every result
 identifies the execution that produced it; a ContextVar set by the calling task (inherited by the tasks cashews
@@ -49,6 +55,8 @@ VAL = "written"
 
 _DEPTH: contextvars.ContextVar[int] = contextvars.ContextVar("c17_depth", default=0)
 _CALLID: contextvars.ContextVar = contextvars.ContextVar("c17_callid", default=None)
+_PARENT: contextvars.ContextVar = contextvars.ContextVar("c17_parent", default=None)   # the command a backend is running
+_ROOT: contextvars.ContextVar = contextvars.ContextVar("c17_root", default=None)       # the depth-0 entry being served
 _LOG: list | None = None
 _MUTE = False        # the harness itself is talking to a backend (loading values): not part of the trace
 
@@ -90,9 +98,14 @@ class _Deep:
 
     async def __anext__(self):
         tok = _DEPTH.set(_DEPTH.get() + 1)
+        ptok = _PARENT.set(self.entry["cmd"])
+        rtok = _ROOT.set(self.entry) if self.entry["depth"] == 0 else None
         try:
             item = await self.agen.__anext__()
         finally:
+            if rtok is not None:
+                _ROOT.reset(rtok)
+            _PARENT.reset(ptok)
             _DEPTH.reset(tok)
         self.entry["items"].append(item)
         return item
@@ -103,6 +116,8 @@ class _Deep:
 
 def _entry(kind: str, obj, cmd: str, a, kw) -> dict:
     e = {"depth": _DEPTH.get(), "kind": kind, "b": obj._c17_id(), "cmd": cmd, "keys": keys_of(cmd, a, kw)}
+    if _PARENT.get() is not None:
+        e["parent"] = _PARENT.get()
     if _CALLID.get() is not None:
         e["call"] = _CALLID.get()
     if _LOG is not None and not _MUTE:
@@ -132,6 +147,8 @@ def recording(base, kind: str):
             async def method(self, *a, __orig=orig, __cmd=cmd, **kw):
                 e = _entry(kind, self, __cmd, a, kw)
                 tok = _DEPTH.set(_DEPTH.get() + 1)
+                ptok = _PARENT.set(__cmd)
+                rtok = _ROOT.set(e) if e["depth"] == 0 else None
                 try:
                     e["ret"] = await __orig(self, *a, **kw)
                     return e["ret"]
@@ -139,10 +156,25 @@ def recording(base, kind: str):
                     e["exc"] = type(exc).__name__
                     raise
                 finally:
+                    if rtok is not None:
+                        _ROOT.reset(rtok)
+                    _PARENT.reset(ptok)
                     _DEPTH.reset(tok)
             ns[cmd] = method
     if kind == "raw":
         ns["_c17_id"] = lambda self: getattr(self, "rec_id", -1)
+        notify = getattr(base, "_call_on_remove_callbacks", None)
+        if notify is None:
+            raise HarnessError(f"patch point {base.__name__}._call_on_remove_callbacks is gone: cannot observe which keys a "
+                               f"backend reports as removed")
+
+        async def _call_on_remove_callbacks(self, *keys, __orig=notify):
+            # the backend tells its on-remove callbacks about removed keys: one invocation, noted on the command being served
+            root = _ROOT.get()
+            if root is not None and not _MUTE:
+                root.setdefault("removed", []).append(list(keys))
+            return await __orig(self, *keys)
+        ns["_call_on_remove_callbacks"] = _call_on_remove_callbacks
     else:
         ns["_c17_id"] = lambda self: getattr(self._backend, "rec_id", -1)
     return type(f"Rec{base.__name__}", (base,), ns)
@@ -217,6 +249,45 @@ MULTI = ["get_many", "set_many", "delete_many"]
 GLOBAL = ["clear", "get_keys_count"]
 DECORATORS = ["cache", "cache_lock", "cache_upper", "early", "soft", "hit", "dynamic", "failover", "iterator",
               "rate_limit", "slice_rate_limit", "circuit_breaker", "locked", "bloom", "dual_bloom", "invalidate"]
+# the caching decorators with tags=: every stored result is registered in its tag sets (set -> set_add on `_tag:<tag>`)
+TAG_DECORATORS = ["cache_tags", "early_tags", "soft_tags", "hit_tags", "dynamic_tags"]
+DEC_TAGS = ["dt1", "dt2"]
+
+# ---- composite commands --------------------------------------------------------------------------------------
+COMPOSITES = ["set_tags", "setnx_tags", "incr_tags", "get_or_set", "delete_tags", "lock", "lock_wait", "invalidate"]
+# harness name -> name of the composite in the model (lean/CashewsVerif/Model/DisableCompose.lean, `Comp`)
+COMP_MODEL = {"setnx_tags": "set_tags"}
+TAG_PREFIX = "_tag:"
+
+
+async def run_composite(cache, name: str, keys, tags, mark):
+    """one composite command; `mark()` is called where the caller's own code runs"""
+    if name.startswith("one:"):
+        return await INVOKE[name[4:]](cache, keys)
+    if name == "set_tags":
+        return await cache.set(keys[0], VAL, expire=100, tags=list(tags))
+    if name == "setnx_tags":
+        return await cache.set(keys[0], VAL, expire=100, exist=False, tags=list(tags))
+    if name == "incr_tags":
+        return await cache.incr(keys[0], tags=list(tags))
+    if name == "get_or_set":
+        async def factory():
+            mark()
+            return VAL
+        return await cache.get_or_set(keys[0], factory, expire=100)
+    if name == "delete_tags":
+        return await cache.delete_tags(*tags)
+    if name in ("lock", "lock_wait"):
+        async with cache.lock(keys[0], 10, wait=(name == "lock_wait"), check_interval=1):
+            mark()
+        return "unlocked"
+    if name == "invalidate":
+        @cache.invalidate(keys[0])
+        async def f():
+            mark()
+            return "body"
+        return await f()
+    raise HarnessError(f"unknown composite {name}")
 
 
 def make_decorated(cache, kind: str, key: str, counter: list):
@@ -246,6 +317,11 @@ def make_decorated(cache, kind: str, key: str, counter: list):
         "bloom": lambda: cache.bloom(capacity=10, name=key, prefix=""),
         "dual_bloom": lambda: cache.dual_bloom(capacity=10, name=key, prefix=""),
         "invalidate": lambda: cache.invalidate(key),
+        "cache_tags": lambda: cache.cache(ttl=10, key=key, tags=DEC_TAGS),
+        "early_tags": lambda: cache.early(ttl=10, early_ttl=5, key=key, prefix="", tags=DEC_TAGS),
+        "soft_tags": lambda: cache.soft(ttl=10, soft_ttl=5, key=key, prefix="", tags=DEC_TAGS),
+        "hit_tags": lambda: cache.hit(ttl=10, cache_hits=3, key=key, prefix="", tags=DEC_TAGS),
+        "dynamic_tags": lambda: cache.dynamic(ttl=10, key=key, prefix="", tags=DEC_TAGS),
     }[kind]()
     if kind == "iterator":
         f = mk(itbody)
@@ -376,7 +452,7 @@ class Run:
 async def _execute(sc) -> list[dict]:
     global _LOG
     from cashews import Cache, Command, TransactionMode
-    from cashews.exceptions import NotConfiguredError
+    from cashews.exceptions import LockedError, NotConfiguredError
 
     from cashews import invalidate_further
 
@@ -388,6 +464,13 @@ async def _execute(sc) -> list[dict]:
     for op in sc["ops"]:
         if op[0] == "cmd":
             allkeys.update(k for k in op[3] if "*" not in k)
+        elif op[0] == "comp":
+            allkeys.update(k for k in op[3] if "*" not in k and not k.startswith(TAG_PREFIX))      # tag sets are sets, not values
+    tagsets = sc.get("tagsets") or {}
+    for members in tagsets.values():
+        allkeys.update(k for k in members if "*" not in k)
+    for tag, template in sc.get("tagreg") or []:
+        cache.register_tag(tag, template)
     prefixes: list[str] = []          # currently registered, in order of first registration
 
     async def do_setup(prefix, bid, opts):
@@ -418,6 +501,8 @@ async def _execute(sc) -> list[dict]:
             for k in sorted(allkeys):
                 if "!" not in k:               # keys containing '!' are left absent
                     await b.set(k, f"v{bid}|{k}")
+            for tag, members in sorted(tagsets.items()):
+                await b.set_add(TAG_PREFIX + tag, *members)
         finally:
             _set_mute(False)
 
@@ -532,6 +617,15 @@ async def _execute(sc) -> list[dict]:
     def fully_off():
         return {bid for bid, b in backends.items() if b.is_full_disable}
 
+    def snapshot(ctx: int, out: dict):
+        """the implementation's own opinion about the control state, asked right before an operation"""
+        out["intx"] = ctx in state["tx"]
+        out["fulloff"] = sorted(fully_off())
+        out["full"] = cache.is_full_disable
+        out["disall"] = {str(bid): sorted(c for c, m in cmd_of.items() if b.is_disable(m)) for bid, b in backends.items()}
+        out["isinit"] = {str(bid): bool(b.is_init) for bid, b in backends.items()}
+        out["inv"] = bool(state["inv"].get(ctx, False))
+
     async def handle(ctx: int, op) -> dict:
         kind = op[0]
         out: dict = {}
@@ -613,9 +707,29 @@ async def _execute(sc) -> list[dict]:
                         out["direct"] = {str(bid): [await b.get(k, default=DFLT) for k in ks] for bid, b in backends.items()}
                     finally:
                         _set_mute(False)
+            elif kind == "comp":
+                name, ks, tags = op[2], op[3], (op[4] if len(op) > 4 else [])
+                snapshot(ctx, out)
+                if ctx in state["txoff"]:
+                    state["txoff"][ctx] &= fully_off()
+                n0 = len(_LOG)
+                out["bodies"] = 0
+
+                def mark():
+                    out["bodies"] += 1
+                    _LOG.append({"depth": _DEPTH.get(), "kind": "body", "b": -1, "cmd": "body", "keys": []})
+
+                try:
+                    out["r"] = canon(await asyncio.wait_for(run_composite(cache, name, ks, tags, mark), WATCHDOG))
+                except LockedError:
+                    out["exc"] = "Locked"
+                finally:
+                    out["log"] = _LOG[n0:]
+                    # the tags of the keys the backends removed (the facade's registry: C12's business)
+                    out["keytags"] = {k: list(cache.get_key_tags(k)) for e in out["log"] for inv in e.get("removed", []) for k in inv}
             elif kind == "dec":
                 dkind, key, n = op[2], op[3], op[4]
-                out["full"] = cache.is_full_disable
+                snapshot(ctx, out)
                 counter = [0]
                 call = make_decorated(cache, dkind, key, counter)
                 n0 = len(_LOG)
